@@ -174,7 +174,7 @@ macro_rules! arr {
 }
 
 pub fn run(cfg: &Cfg, rep: &mut Report) {
-    let n = cfg.n(1_200, 4_800_000, 96_000_000);
+    let n = cfg.n(1_200, 4_800_000, 288_000_000);
     run_cases(cfg, "histories", n, rep, |rng, ctx| {
         let mode = match rng.usize(10) {
             0..=3 => Mode::Mixed,
@@ -198,7 +198,7 @@ pub fn run(cfg: &Cfg, rep: &mut Report) {
             }
         }
     });
-    let n = cfg.n(2, 1_600, 32_000);
+    let n = cfg.n(2, 1_600, 96_000);
     run_cases(cfg, "long", n, rep, |rng, ctx| {
         match rng.usize(5) {
             0 => arr!(1, rng, ctx, Mode::Long),
